@@ -2,6 +2,7 @@ import Heph.Model.Pickle
 import Heph.Generated.PickleClasses
 import Heph.Proofs.PickleStable
 import Heph.Proofs.PickleLoad
+import Heph.Proofs.PickleFuel
 /-!
 # C13 — saved programs replay faithfully (partial: the abstract pickle machine)
 
@@ -13,10 +14,12 @@ equal element-wise, rebuilt graphs isomorphic) and judges the property on the re
 Proved for ALL heaps: `load_dump_iso_proved` (loading what was dumped rebuilds an isomorphic graph — a simulation
 between the pickler's run and the VM's run on the emitted stream, `Heph/Proofs/PickleLoad*.lean`),
 `redump_after_load` (if the pickler visits every cell, the loaded heap has the same size, is again fully visited
-and dumps to the SAME op-codes), `redump_stable`, `dump_stable_partial`, `keys_ready_partial` (the VM with the
+and dumps to the SAME op-codes), `redump_same_if_defined` (every heap: if the loaded heap dumps at all, then to the
+same op-codes), `redump_stable`, `dump_stable_partial` (equal sizes), `dump_stable_defined` (any sizes, both dumps
+defined), `dump_stable_up` (from the smaller heap to the larger), `keys_ready_partial` (the VM with the
 hash accounting switched on accepts every dumped stream), `observation_congruence`, `keys_ready_counterexample`.
-Stated, not proved: `dump_stable` / `redump_after_load_full` (independence of `dump` from unvisited cells: the
-fuel and the memo table are sized by the heap), `keys_ready` (that the count is 0 under `noKeyCycle`).
+Stated, not proved: `dump_stable` / `redump_after_load_full` (that DEFINEDNESS of `dump` is independent of
+unvisited cells: the fuel is computed from the heap size), `keys_ready` (that the count is 0 under `noKeyCycle`).
 -/
 namespace Heph.Props.C13
 open Heph.Pickle
@@ -187,6 +190,63 @@ example : Iso hA (.ref 0) hB (.ref 1) ∧ hA.size = hB.size := by
       simp [fAB] at ha; subst ha
       exact ⟨_, _, rfl, rfl, rfl⟩
     | n + 2 => simp [fAB] at ha
+
+/-! ## heaps of different sizes -/
+
+/-- **dump_stable, second proved part**: isomorphic rooted heaps of ANY sizes have the same op-code stream
+whenever both dumps are defined (`save` is monotone in its fuel, `Heph/Proofs/PickleFuel.lean`, and the simulation
+of two pickler runs holds for every common fuel).  Missing for the full `dump_stable`: that definedness itself does
+not depend on the number of unvisited cells (adequacy of the fuel `(size+1)²+1` of the smaller heap). -/
+theorem dump_stable_defined {h h' : Heap} {r r' : Val} {ops ops' : List Op} (iso : Iso h r h' r')
+    (hd : dump h r = some ops) (hd' : dump h' r' = some ops') : ops = ops' :=
+  dump_eq_of_iso_defined iso hd hd'
+
+/-- **dump_stable, third proved part**: the stream of the smaller heap is also the stream of the larger one
+(definedness transfers upwards) -/
+theorem dump_stable_up {h h' : Heap} {r r' : Val} {ops : List Op} (iso : Iso h r h' r') (hsz : h.size ≤ h'.size)
+    (hd : dump h r = some ops) : dump h' r' = some ops :=
+  dump_up_of_iso iso hsz hd
+
+/-- for EVERY dumpable heap (no proviso on unvisited cells): the stream loads, and if the loaded heap can be
+dumped at all, its op-codes are the original ones -/
+theorem redump_same_if_defined {h : Heap} {r : Val} {ops : List Op} (hd : dump h r = some ops) :
+    ∃ h' r', load ops = some (h', r') ∧ ∀ ops', dump h' r' = some ops' → ops' = ops := by
+  obtain ⟨h', r', hl, iso⟩ := load_dump_iso_proved h r ops hd
+  exact ⟨h', r', hl, fun ops' hd' => (dump_stable_defined iso hd hd').symm⟩
+
+/-- the hypotheses of `dump_stable_defined` are satisfiable by heaps of different sizes: `hA` plus a cell the
+pickler never visits -/
+def hC : Heap := #[.list [.ref 1, .ref 1, .ref 0], .str "a", .str "never visited"]
+def fAC : Nat → Option Nat
+  | 0 => some 0
+  | 1 => some 1
+  | _ => none
+
+example : Iso hA (.ref 0) hC (.ref 0) ∧ hA.size ≠ hC.size ∧ (dump hA (.ref 0)).isSome = true ∧
+    (dump hC (.ref 0)).isSome = true := by
+  refine ⟨⟨fAC, ⟨?_, rfl, ?_⟩⟩, by decide, by decide, by decide⟩
+  · intro a b c ha hb
+    match a, b with
+    | 0, 0 => rfl
+    | 1, 1 => rfl
+    | 0, 1 => simp [fAC] at ha hb; omega
+    | 1, 0 => simp [fAC] at ha hb; omega
+    | 0, n + 2 => simp [fAC] at hb
+    | 1, n + 2 => simp [fAC] at hb
+    | n + 2, _ => simp [fAC] at ha
+  · intro a a' ha
+    match a with
+    | 0 =>
+      simp [fAC] at ha; subst ha
+      exact ⟨_, _, rfl, rfl, .cons rfl (.cons rfl (.cons rfl .nil))⟩
+    | 1 =>
+      simp [fAC] at ha; subst ha
+      exact ⟨_, _, rfl, rfl, rfl⟩
+    | n + 2 => simp [fAC] at ha
+/-- the hypotheses of `dump_stable_up` -/
+example : hA.size ≤ hC.size ∧ (dump hA (.ref 0)).isSome = true := by decide
+/-- a heap with an unvisited cell: `redump_after_load`'s proviso fails, `redump_same_if_defined` applies -/
+example : dumpCount hC (.ref 0) = some 2 ∧ hC.size = 3 := by decide
 
 /-! ## concrete heaps: non-vacuity and the counterexample -/
 
